@@ -25,6 +25,10 @@ pub fn read_menu() -> Vec<(String, Step)> {
     let mut big = vec![6u8, 0];
     big.extend(std::iter::repeat(0x11u8).take(3000));
     let bigget = ethcall(0, Some(s.clone()), &big);
+    // creation code reading BLOCKHASH at distances 1, 2, 256 and of block 0: at an explicit future height
+    // these are blocks the database has no row for
+    let bh_code: Vec<u8> = vec![0x43, 0x60, 0x01, 0x90, 0x03, 0x40, 0x50, 0x43, 0x60, 0x02, 0x90, 0x03, 0x40, 0x50, 0x43, 0x61, 0x01, 0x00, 0x90, 0x03, 0x40, 0x50, 0x5f, 0x40, 0x50, 0x00];
+    let bh = ethcall(3, None, &bh_code);
     let pre = json!({"opReturnTxIds": [h32(0x31), h32(0x32), h32(0x33)], "bitcoinTxHexes": {}});
     let z = zero32();
     vec![
@@ -45,6 +49,13 @@ pub fn read_menu() -> Vec<(String, Step)> {
         ("estimateMany:set,get,die".into(), rd("eth_estimateGasMany", json!([[set, get0, die], null, pre]), true)),
         ("estimateMany:set,bigdata".into(), rd("eth_estimateGasMany", json!([[set, bigget], null, null]), true)),
         ("estimate:bigdata".into(), rd("eth_estimateGas", json!([bigget, null]), true)),
+        ("call:blockhash".into(), rd("eth_call", json!([bh, null]), true)),
+        ("call:blockhash@100".into(), rd("eth_call", json!([bh, "0x64"]), true)),
+        ("call:blockhash@1".into(), rd("eth_call", json!([bh, "0x1"]), true)),
+        ("call:set@100".into(), rd("eth_call", json!([set, "0x64"]), true)),
+        ("callMany:blockhash,set@100".into(), rd("eth_callMany", json!([[bh, set], "0x64", null]), true)),
+        ("estimate:blockhash@100".into(), rd("eth_estimateGas", json!([bh, "0x64"]), true)),
+        ("estimateMany:blockhash@300".into(), rd("eth_estimateGasMany", json!([[bh, get0], "0x12c", null]), true)),
         ("balance".into(), rd("brc20_balance", json!([pkscript(1), "ordi"]), true)),
         ("getLogs".into(), rd("eth_getLogs", json!([{}]), false)),
         ("getBlock".into(), rd("eth_getBlockByNumber", json!(["latest", true]), false)),
